@@ -95,6 +95,9 @@ Proof.
   destruct f1, f2, f3, f4, f5; reflexivity.
 Qed.
 
+Lemma dense_empty_table fd : dense_empty fd = dense_empty_t fd.
+Proof. destruct fd as [f1 f2 f3 f4 f5]. destruct f1, f2, f3, f4, f5; reflexivity. Qed.
+
 Lemma tags_if_found_table_way st fk fv wc old :
   tags_if_found st fk fv wc old
   = if forallb (wflag fk fv) (use_flags way_rules "set:Way.Tags")
